@@ -624,6 +624,8 @@ From CPL Require Import Model.Base.
 Import ListNotations.
 Local Open Scope Z_scope.
 
+(* auxiliary definitions src_h_<name> (helpers extracted from a target in the source) are unfolded by the proofs *)
+Create HintDb src_helpers.
 (* fixed helpers of the translation templates *)
 Definition src_nb (n : list (list Z)) (i j : nat) : Z := nth j (nth i n []) 0.
 Definition src_zin (x : Z) (l : list Z) : bool := existsb (Z.eqb x) l.
@@ -952,6 +954,8 @@ class FunTrans:
                 return '(- %s)' % a, Z
             if isinstance(e.op, ast.Not) and ta == BOOL:
                 return '(negb %s)' % a, BOOL
+            if isinstance(e.op, ast.Not) and ta == Z:
+                return '(%s =? 0)' % a, BOOL            # `not x` on an int: x == 0
             _err(e, 'unary operator %s on %s is outside the subset' % (type(e.op).__name__, ta))
         if isinstance(e, ast.BinOp):
             return self.binop(e, env)
@@ -1086,6 +1090,10 @@ class FunTrans:
             return '(%s * %s)' % (a, b), Z
         if isinstance(e.op, ast.BitXor):
             return '(Z.lxor %s %s)' % (a, b), Z
+        if isinstance(e.op, ast.BitOr):
+            return '(Z.lor %s %s)' % (a, b), Z
+        if isinstance(e.op, ast.BitAnd):
+            return '(Z.land %s %s)' % (a, b), Z
         _err(e, 'operator %s is outside the subset' % type(e.op).__name__)
 
     def compare(self, e, env):
@@ -1200,6 +1208,17 @@ class FunTrans:
         if len(e.generators) != 1:
             _err(e, 'comprehension with several generators')
         g = e.generators[0]
+        # [int(d) for d in bin(num)[2:]]: the binary digits of num (the model's bin_digits), like list(map(int, ..))
+        if (not g.ifs and isinstance(g.target, ast.Name) and isinstance(e.elt, ast.Call)
+                and isinstance(e.elt.func, ast.Name) and e.elt.func.id == 'int' and len(e.elt.args) == 1
+                and not e.elt.keywords and isinstance(e.elt.args[0], ast.Name) and e.elt.args[0].id == g.target.id
+                and isinstance(g.iter, ast.Subscript) and isinstance(g.iter.slice, ast.Slice)
+                and _is_int_const(g.iter.slice.lower) and g.iter.slice.lower.value == 2
+                and g.iter.slice.upper is None and g.iter.slice.step is None
+                and isinstance(g.iter.value, ast.Call) and isinstance(g.iter.value.func, ast.Name)
+                and g.iter.value.func.id == 'bin' and len(g.iter.value.args) == 1
+                and isinstance(g.iter.value.args[0], ast.Name) and env.vars.get(g.iter.value.args[0].id) == NNUM):
+            return '(bin_digits %s)' % g.iter.value.args[0].id, ZLIST
         if g.is_async or len(g.ifs) > 1:
             _err(e, 'comprehension with several conditions')
         lst, ety, nonneg = self.iter_source(g.iter, env)
@@ -1347,6 +1366,29 @@ class FunTrans:
                 _err(e, 'np.base_repr(..).zfill(..) on (%s, %s, %s)' % (tr, tk, tw))
             d = self.bind(env, e, 'base_repr %s %s' % (r, k))
             return '(zfill %s %s)' % (w, d), DIGITS
+        if ast.unparse(f) == 'np.base_repr' and self.mod.imports_numpy_as_np and len(e.args) == 1 \
+                and len(e.keywords) == 1 and e.keywords[0].arg == 'base':
+            r, tr = self.expr(e.args[0], env)
+            k, tk = self.expr(e.keywords[0].value, env)
+            if tr != NNUM or tk != NNUM:
+                _err(e, 'np.base_repr on (%s, %s)' % (tr, tk))
+            return self.bind(env, e, 'base_repr %s %s' % (r, k)), DIGITS
+        if isinstance(f, ast.Attribute) and f.attr == 'zfill' and len(e.args) == 1 and not e.keywords:
+            d, td = self.expr(f.value, env)
+            w, tw = self.expr(e.args[0], env)
+            if td == DIGITS and tw == Z:
+                return '(zfill %s %s)' % (w, d), DIGITS
+            _err(e, '.zfill on (%s, %s)' % (td, tw))
+        # binary_rule(n, R, scheme='nks') with R a rule number: the model's nks_rule n R (= binary_rule n (RInt R) SNks None)
+        if isinstance(f, ast.Name) and f.id == 'binary_rule' and len(e.args) == 2 and len(e.keywords) == 1 \
+                and e.keywords[0].arg == 'scheme' and isinstance(e.keywords[0].value, ast.Constant) \
+                and e.keywords[0].value.value == 'nks' and self.mod.has_function('binary_rule') \
+                and self.t['prop'] != 'C07':
+            n, tn = self.expr(e.args[0], env)
+            r, tr = self.expr(e.args[1], env)
+            if tn == ZVEC and tr == NNUM:
+                return self.bind(env, e, 'nks_rule %s %s' % (n, r)), Z
+            _err(e, 'binary_rule(.., scheme=nks) on (%s, %s)' % (tn, tr))
         # int(ch, k) on one character of a digit string
         if isinstance(f, ast.Name) and f.id == 'int' and len(e.args) == 2 and not e.keywords:
             ch, tc = self.expr(e.args[0], env)
@@ -1487,6 +1529,13 @@ class FunTrans:
                 if rr[1]:
                     return self.bind(env, e, 'src_%s %s' % (callee['name'], ' '.join(args))), rr[0]
                 return '(src_%s %s)' % (callee['name'], ' '.join(args)), rr[0]
+            # a module-level function of the same file that is NOT a declared target (a helper extracted from a
+            # target): translated on the fly with the parameter types of this call site, as an auxiliary definition
+            # src_h_<name>; positional arguments only, no defaults, no decorators, no recursion; fail-closed as usual
+            if callee is None and f.id not in env.vars:
+                helper = [n for n in self.mod.tree.body if isinstance(n, ast.FunctionDef) and n.name == f.id]
+                if len(helper) == 1 and not e.keywords:
+                    return self.inline_helper(e, helper[0], env)
         # list(map(int, bin(num)[2:])): the binary digits of num, most significant first (the model's bin_digits)
         if isinstance(f, ast.Name) and f.id == 'list' and len(e.args) == 1 and \
                 ast.dump(e.args[0])[:0] == '' and self.is_bin_digits(e.args[0], env):
@@ -1641,6 +1690,56 @@ class FunTrans:
                 env.binds.append(('let:st', '(%s)' % call))
             return None
         _err(e, 'call of a method that writes the object and returns a value is outside the subset')
+
+    def inline_helper(self, e, fn, env):
+        root = getattr(self, 'root', self)
+        a = fn.args
+        if fn.decorator_list or a.vararg or a.kwarg or a.kwonlyargs or a.posonlyargs:
+            _err(e, 'helper %s has decorators / *args / **kwargs' % fn.name)
+        if len(e.args) != len(a.args):
+            _err(e, 'helper %s called with %d of its %d parameters (defaults are not translated)' % (
+                fn.name, len(e.args), len(a.args)))
+        stack = getattr(root, 'helper_stack', [])
+        if fn.name in stack or len(stack) > 4:
+            _err(e, 'recursive (or too deeply nested) helper %s' % fn.name)
+        args = [self.expr(x, env) for x in e.args]
+        if any(t in (UNUSED, STATE, STORE, ADDS, DICT5) for _, t in args):
+            _err(e, 'helper %s called with an argument of a type that cannot be passed on' % fn.name)
+        key = (fn.name, tuple(t for _, t in args))
+        cache = root.__dict__.setdefault('helper_cache', {})
+        if key not in cache:
+            name = 'h_' + fn.name.lstrip('_') + ('' if not any(k[0] == fn.name for k in cache) else
+                                                    '_%d' % (1 + sum(1 for k in cache if k[0] == fn.name)))
+            t = dict(name=name, prop=self.t['prop'], file=self.t['file'], cls=None, func=fn.name,
+                     params=[(p.arg, ty) for p, (_, ty) in zip(a.args, args)], attrs=[])
+            ft = FunTrans(self.mod, t, None, {}, {})
+            ft.root = root
+            ft.mode_effects_ok = root.mode_effects_ok
+            root.helper_stack = stack + [fn.name]
+            try:
+                henv = Env(ft)
+                for p, (_, ty) in zip(a.args, args):
+                    henv.vars[_check_ident(fn, p.arg)] = ty
+                henv.pylists = set(p.arg for p, x in zip(a.args, e.args) if self.is_list_value(x, env))
+                henv.nonneg = set(p.arg for p, x in zip(a.args, e.args) if self.is_nonneg(x, env))
+                henv.positive = set(p.arg for p, x in zip(a.args, e.args)
+                                    if isinstance(x, ast.Name) and x.id in env.positive)
+                body = ft.block(fn.body, henv, lambda env2: ft.ret('none', 'None'))
+                body, cty = ft.finish(body, fn)
+            finally:
+                root.helper_stack = stack
+            root.subdefs.extend(ft.subdefs)
+            root.subdefs.append(dict(name=name, params=[(p.arg, ty) for p, (_, ty) in zip(a.args, args)], attrs=[],
+                                     body=body, cty=cty, lo=fn.lineno, hi=fn.end_lineno, generic=self.t.get('generic', ''),
+                                     stateful=False, helper=True, what='helper %s (called from %s)' % (fn.name, self.t['func'])))
+            cache[key] = (name, ft.rty, ft.effects)
+        name, rty, eff = cache[key]
+        if self.t.get('generic'):
+            _err(e, 'helper call inside a generic target')
+        call = 'src_%s %s' % (name, ' '.join(tx for tx, _ in args))
+        if eff:
+            return self.bind(env, e, call), rty
+        return '(%s)' % call, rty
 
     def is_bin_digits(self, x, env):
         """map(int, bin(num)[2:]) with num : N"""
@@ -1839,11 +1938,15 @@ class FunTrans:
         if isinstance(s, ast.AugAssign):
             if not isinstance(s.target, ast.Name) or env.vars.get(s.target.id) != Z:
                 _err(s, 'augmented assignment to something that is not an int local')
-            if not isinstance(s.op, (ast.Add, ast.Sub)):
-                _err(s, 'augmented assignment other than += / -=')
+            if not isinstance(s.op, (ast.Add, ast.Sub, ast.BitOr)):
+                _err(s, 'augmented assignment other than += / -= / |=')
             v, tv = self.expr(s.value, env)
             if tv != Z:
                 _err(s, 'augmented assignment of a non-int')
+            if isinstance(s.op, ast.BitOr):
+                name = s.target.id
+                env2 = env.copy()
+                return self.wrap_binds(env, self.let(name, '(Z.lor %s %s)' % (name, v), cont(env2)))
             name = s.target.id
             env2 = env.copy()
             for other, elts in env.elts.items():
@@ -1883,6 +1986,8 @@ class FunTrans:
                 _err(s, 'raise in a function declared pure')
             self.effects = True
             return '(Raise ValueError)'
+        if isinstance(s, ast.Pass):
+            return cont(env)
         if isinstance(s, (ast.Break, ast.Continue)):
             if env.loop_acc is None:
                 _err(s, 'break / continue outside a loop translated with src_for')
@@ -1943,6 +2048,13 @@ class FunTrans:
         return self.block(stmts, sub, k)
 
     def match_test(self, t, env):
+        if isinstance(t, ast.UnaryOp) and isinstance(t.op, ast.Not):
+            m = self.match_test(t.operand, env)
+            if m is not None:
+                return (m[0], m[2], m[1])
+        return self.match_test_pos(t, env)
+
+    def match_test_pos(self, t, env):
         """tests that discriminate a tagged argument: `x is None` on an optional list, isinstance(rule, (list,
         np.ndarray)) on the rule argument (RBits l / RInt n)"""
         if isinstance(t, ast.Compare) and len(t.ops) == 1 and isinstance(t.ops[0], (ast.Is, ast.IsNot)) \
@@ -2139,7 +2251,30 @@ class FunTrans:
             return "'(%s, %s)" % (na, nb), {na: a, nb: b}, ([na] if nonneg and a == Z else [])
         _err(target, 'loop target is outside the subset')
 
+    @staticmethod
+    def normalise_continue(stmts):
+        """`if c: continue` (no else) followed by REST is `if not c: REST`: a guard clause at any position of a loop
+        body (applied from the last statement backwards); other uses of `continue` are left alone"""
+        out = list(stmts)
+        for i in range(len(out) - 1, -1, -1):
+            st = out[i]
+            if isinstance(st, ast.If) and not st.orelse and len(st.body) == 1 and isinstance(st.body[0], ast.Continue):
+                rest = out[i + 1:]
+                if rest:
+                    new = ast.If(test=ast.UnaryOp(op=ast.Not(), operand=st.test), body=rest, orelse=[])
+                    ast.copy_location(new, st)
+                    ast.copy_location(new.test, st.test)
+                    out = out[:i] + [new]
+                else:
+                    out = out[:i] + [ast.copy_location(ast.Pass(), st)]
+        return out
+
     def fold_loop(self, s, env, cont):
+        body0 = self.normalise_continue(s.body)
+        if body0 != list(s.body):
+            s2 = ast.For(target=s.target, iter=s.iter, body=body0, orelse=[])
+            ast.copy_location(s2, s)
+            s = s2
         lst, ety, nonneg = self.iter_source(s.iter, env)
         pat, newvars, nn = self.bind_pattern(s.target, ety, env, nonneg)
         if _contains(s.body, (ast.Return, ast.Raise, ast.While)):
@@ -2493,7 +2628,7 @@ def translate_stmt_fragment(mod, target):
     body = ft.block(stmts, env, k)
     body, cty = ft.finish(body, stmts[0])
     mod.results[target['name']] = (ft.rty, ft.effects)
-    return [dict(name=target['name'], params=[(env.alias.get(p, p), ty) for p, ty in target['free']], attrs=[],
+    return ft.subdefs + [dict(name=target['name'], params=[(env.alias.get(p, p), ty) for p, ty in target['free']], attrs=[],
                  body=body, cty=cty, lo=stmts[0].lineno, hi=stmts[-1].end_lineno, generic=target.get('generic', ''),
                  stateful=False,
                  what='%s, the statements %s' % ('.'.join([target['func']] + target.get('nested', [])), target['what']))]
@@ -2522,7 +2657,7 @@ def translate_fragment(mod, target):
     body = ft.wrap_binds(env, ft.ret(ty, tx))
     body, cty = ft.finish(body, node)
     mod.results[target['name']] = (ft.rty, ft.effects)
-    return [dict(name=target['name'], params=[(env.alias.get(p, p), ty) for p, ty in target['free']], attrs=[],
+    return ft.subdefs + [dict(name=target['name'], params=[(env.alias.get(p, p), ty) for p, ty in target['free']], attrs=[],
                  body=body, cty=cty,
                  lo=node.lineno, hi=node.end_lineno, generic=target.get('generic', ''), stateful=False,
                  what='%s, the expression %s' % ('.'.join([target['func']] + target.get('nested', [])), target['what']))]
@@ -2725,7 +2860,10 @@ def emit_def(mod, d):
         else:
             params.append('(%s : %s)' % (p, coq_type(ty)))
     head = '(* %s, cellpylib/%s\n%s *)' % (d['what'], mod.fname, _quote(mod, d['lo'], d['hi']))
-    return '%s\nDefinition src_%s %s : %s :=\n%s.\n' % (head, d['name'], ' '.join(params), d['cty'], _indent(d['body']))
+    text = '%s\nDefinition src_%s %s : %s :=\n%s.\n' % (head, d['name'], ' '.join(params), d['cty'], _indent(d['body']))
+    if d.get('helper'):
+        text += '#[global] Hint Unfold src_%s : src_helpers.\n' % d['name']
+    return text
 
 
 def all_props():
